@@ -24,12 +24,31 @@ BBLIB = [["ff", ["clk", "d"], ["q"]], ["dff", ["CK", "D"], ["Q", "QN"]], ["sram"
          ["src", [], ["o"]], ["snk", ["i"], []]]
 
 
+def vary_bb(rng, bb):
+    """the same cell name with other pins: more pins, fewer pins, or inputs and outputs swapped"""
+    name, ins, outs = bb[0], list(bb[1]), list(bb[2])
+    kinds = ["more"] + (["fewer"] if len(ins) + len(outs) > 1 else []) + (["swap"] if ins and outs else [])
+    k = rng.choice(kinds)
+    if k == "more":
+        if rng.random() < 0.5:
+            outs.append("QN2" if "QN2" not in outs else "Q3")
+        else:
+            ins.append("EN" if "EN" not in ins else "EN2")
+        if rng.random() < 0.3:
+            outs.append("so")
+    elif k == "fewer":
+        (ins if ins and (not outs or rng.random() < 0.5) else outs).pop()
+    else:
+        ins, outs = outs, ins
+    return [name, ins, outs], k
+
+
 def is_const(s):
     return s is not None and "'" in s
 
 
 # ---------------------------------------------------------------- generator
-def gen_ast(rng, size="small", stress=0.35, p_const=0.15, p_bb=0.5, p_assign=0.5, pardup=0.0, p_cycle=0.0):
+def gen_ast(rng, size="small", stress=0.35, p_const=0.15, p_bb=0.5, p_assign=0.5, pardup=0.0, p_cycle=0.0, bblib=None):
     """A random AST inside the documented subset (well-formed by construction unless weird > 0)."""
     pool = list(PLAIN)
     rng.shuffle(pool)
@@ -62,7 +81,7 @@ def gen_ast(rng, size="small", stress=0.35, p_const=0.15, p_bb=0.5, p_assign=0.5
         r = rng.random()
         if r < p_bb * 0.35 and n_bb < 2:
             n_bb += 1
-            bb = rng.choice(BBLIB)
+            bb = rng.choice(bblib or BBLIB)
             if bb[0] not in [b[0] for b in bbdefs]:
                 bbdefs.append(bb)
             conns = []
